@@ -145,6 +145,21 @@ CHECKS["C10"] = dict(
          "Prefix enumeration is complete per sampled input, token damage is capped per input in the quick tier; inputs are sampled. Time "
          "proportionality is judged as 'within the step / 10 s watchdog budget for inputs < 2 KiB'.")
 
+CHECKS["C15"] = dict(
+    level="exploration", design="DESIGN.md §3 C15",
+    technique=TECH + ": generated histories of 1-4 config loads through three real entry points (parser as the CLI uses it, configparse__ from a script, sqfvm_load_config between API calls) interleaved with probe scripts; executable reference tree as oracle; cycle attempts across loads judged for bounded termination and acyclicity",
+    text="A generator that drives a shadow tree writes 1-4 config texts: nested classes (depth <= 3), single inheritance from names visible in an "
+         "enclosing class, re-opening, forward declarations, delete of inherited entries, += on inherited arrays, numbers, strings with escapes "
+         "and nested arrays, all names from a pool of five class and four value names so that shadowing is the rule. The texts are loaded in "
+         "order through one of three entry points. After EVERY load a probe script asks, for every existing path (own and inherited), for a "
+         "missing name and every deleted name below every class: isNull, isClass/isNumber/isText/isArray, getNumber/getText/getArray, configName, "
+         "inheritsFrom, count, select 0..n-1 and configHierarchy. A reference tree (own entries in declaration order, base link, delete "
+         "markers) answers the same probes; every answer must agree, every well-formed text must be accepted. 15 % of the histories end "
+         "with a load that would make a class inherit from its own descendant or from itself; they are judged for bounded termination of "
+         "all probes (watchdog) and for an acyclic inheritance relation as read back through inheritsFrom.",
+    note="Histories the statement does not fix (base not visible, re-opening with another base, delete of an own entry, += over an own entry) "
+         "are judged for safety only. Names are used in one spelling (case-insensitivity of config names is not part of the statement).")
+
 CHECKS["C16"] = dict(
     level="exploration", design="DESIGN.md §3 C16",
     technique=TECH + ": seeded directory trees, mapping sets and request spellings against the real file layer over a scratch disk, with the resolved file deleted / truncated / turned into a directory between resolution and read; executable reference resolver as oracle, decoy files outside every root as containment probes",
